@@ -91,8 +91,11 @@ def evalStep (op : String) (ins : List Val) (p : Json) : StepRes := do
   match op, ins with
   | "transpose", [v] =>
     let a ← asArr v
-    let axes ← optField p "axes" (listOf getNat)
-    let axes := axes.getD (Arr.reversedAxes a.ndim)
+    -- negative axes are normalised as numpy (and, since the fix, the sign routine) does
+    let axesI ← optField p "axes" (listOf getInt)
+    let axes := match axesI with
+      | some l => l.map (fun x => (if a.ndim == 0 then x else x % (a.ndim : Int)).toNat)
+      | none => Arr.reversedAxes a.ndim
     if !Arr.isPerm axes a.ndim then return .error Err.value
     if a.fermi then
       ok1 (.arr (a.transposeF axes (← boolField p "phase" true)))
@@ -204,7 +207,9 @@ def evalStep (op : String) (ins : List Val) (p : Json) : StepRes := do
     ok1 (.arr (a.phaseFlip (← listOf getNat (← field p "axs"))))
   | "phase_transpose", [v] =>
     let a ← asArr v
-    ok1 (.arr (a.phaseTranspose (← optField p "axes" (listOf getNat))))
+    let axesI ← optField p "axes" (listOf getInt)
+    ok1 (.arr (a.phaseTranspose (axesI.map (fun l =>
+      l.map (fun x => (if a.ndim == 0 then x else x % (a.ndim : Int)).toNat)))))
   | "phase_sector", [v] =>
     let a ← asArr v
     ok1 (.arr (a.phaseSector (← decSector (← field p "sector"))))
